@@ -43,6 +43,13 @@ GROUPS = {
     dict(file="src/topk/lossycounter.rs", fn="query", lean="lossy_query_bound", self=[("epsilon", "F"), ("n", "N")],
          result=("lets", ["bound"])),
  ],
+ "k_lossy_window": [
+    # the window arithmetic of `LossyCounter::add` (the pre-increment of n is named n1 by the rewrite)
+    dict(file="src/topk/lossycounter.rs", fn="add", lean="lossy_add_window", self=[("n", "N"), ("width", "N")], drop=["t"],
+         subst=[(r"self\.n \+= 1;", "let n1 = self.n + 1;"), (r"self\.n % self\.width", "n1 % self.width"),
+                (r"self\.n / self\.width", "n1 / self.width")],
+         result=("lets", ["at_window_end", "b_current"])),
+ ],
  "k_sizing_cuckoo": [
     dict(file="src/filters/cuckoofilter.rs", fn="with_properties_and_hash_n", lean="cuckoo_with_properties", drop=["rng", "bh"],
          result=("call_args", "with_params_and_hash", [1, 2, 3])),
@@ -231,7 +238,7 @@ STRUCTS = {
 
 # group -> Lean module (Pds/Generated/Kernels/<Module>.lean); other generated modules a group's kernels call
 MODULE = {"k_td_core": "TdCore", "k_td_scale": "TdScale", "k_sizing_bloom": "SizingBloom", "k_sizing_cms": "SizingCms",
-          "k_sizing_lossy": "SizingLossy", "k_sizing_cuckoo": "SizingCuckoo", "k_alloc": "Alloc", "k_hll_add": "HllAdd",
+          "k_sizing_lossy": "SizingLossy", "k_sizing_cuckoo": "SizingCuckoo", "k_lossy_window": "LossyWindow", "k_alloc": "Alloc", "k_hll_add": "HllAdd",
           "k_hll_err": "HllErr", "k_hashiter": "HashIter", "k_cuckoo": "Cuckoo", "k_quotient": "Quotient", "k_reservoir": "Reservoir",
           "k_reservoir_add": "ReservoirAdd", "k_td_read": "TdRead", "k_td_merge": "TdMerge", "k_bloom_ops": "BloomOps", "k_cms_ops": "CmsOps", "k_cuckoo_ops": "CuckooOps"}
 IMPORTS = {"k_td_read": ["TdCore"], "k_td_merge": ["TdCore"]}
